@@ -1948,6 +1948,112 @@ void apply_mutation(const Op& op)
         const std::string text = " " + d.substr(src.name_b, src.val_e + 1 - src.name_b);
         d.insert(dst.val_e + 1, text);
     }
+    else if(n == "xml")
+    {
+        // what XML tooling (editors, pretty printers, other vendors' exporters) legitimately or nearly
+        // legitimately does to a file: byte-order mark, DOCTYPE with entities, CDATA, comments, processing
+        // instructions, character references, padded numbers, a declaration that lies about the encoding
+        std::vector<std::size_t> gts; // positions right after a '>' that closes a tag (outside of the prolog)
+        std::vector<std::pair<std::size_t, std::size_t>> texts, avals;
+        for(std::size_t i = 0; i + 1 < d.size(); i++)
+        {
+            if(d[i] != '>') continue;
+            if(i > 0 && d[i - 1] != '?') gts.push_back(i + 1);
+            std::size_t e = d.find('<', i + 1);
+            if(e == std::string::npos) break;
+            bool blank = true;
+            for(std::size_t k = i + 1; k < e; k++)
+                if(!std::isspace((unsigned char)d[k])) blank = false;
+            if(!blank && e + 1 < d.size() && d[e + 1] == '/') texts.push_back({i + 1, e});
+        }
+        for(std::size_t i = 0; i + 2 < d.size(); i++)
+            if(d[i] == '=' && d[i + 1] == '"')
+            {
+                std::size_t ve = d.find('"', i + 2);
+                if(ve == std::string::npos) break;
+                avals.push_back({i + 2, ve});
+                i = ve;
+            }
+        const u64 k = op.uarg(0);
+        switch(op.uarg(1) % 10)
+        {
+        case 0: d.insert(0, "\xEF\xBB\xBF"); break;
+        case 1:
+        {
+            std::size_t at = d.compare(0, 5, "<?xml") == 0 && d.find("?>") != std::string::npos ? d.find("?>") + 2 : 0;
+            d.insert(at, "\n<!DOCTYPE messageSchema [ <!ENTITY e \"7\"> <!ENTITY big \"&e;&e;&e;&e;&e;&e;&e;&e;\"> ]>\n");
+            if(!texts.empty() && (k & 1))
+            {
+                // and use the entity (positions moved: recompute by searching again is overkill - append to the first text)
+                std::size_t t = d.find("</", d.find("]>"));
+                if(t != std::string::npos) d.insert(t, (k & 2) ? "&big;" : "&e;");
+            }
+            break;
+        }
+        case 2:
+            if(!texts.empty())
+            {
+                auto t = texts[(std::size_t)(k % texts.size())];
+                d.insert(t.second, "]]>");
+                d.insert(t.first, "<![CDATA[");
+            }
+            break;
+        case 3:
+            if(!gts.empty()) d.insert(gts[(std::size_t)(k % gts.size())], "<!-- a comment with <tags> & \"quotes\" -->");
+            break;
+        case 4:
+            if(!gts.empty()) d.insert(gts[(std::size_t)(k % gts.size())], "<?tool keep=\"1\"?>");
+            break;
+        case 5:
+            if(!texts.empty())
+            {
+                auto t = texts[(std::size_t)(k % texts.size())];
+                static const char* refs[] = {"&#65;", "&amp;", "&lt;", "&#x31;", "&#49;&#50;", "&quot;", "&apos;", "&#0;", "&#1114112;"};
+                d.replace(t.first, t.second - t.first, refs[(k / 7) % 9]);
+            }
+            break;
+        case 6:
+            if(!avals.empty())
+            {
+                auto a = avals[(std::size_t)(k % avals.size())];
+                if(a.second > a.first)
+                {
+                    char buf[16];
+                    std::snprintf(buf, sizeof buf, "&#%u;", (unsigned)(unsigned char)d[a.first]);
+                    d.replace(a.first, 1, buf);
+                }
+            }
+            break;
+        case 7:
+            if(!avals.empty())
+            {
+                // pad the k-th numeric attribute value with white space / line breaks
+                std::vector<std::size_t> nums;
+                for(std::size_t i = 0; i < avals.size(); i++)
+                    if(avals[i].second > avals[i].first && std::isdigit((unsigned char)d[avals[i].first])) nums.push_back(i);
+                if(!nums.empty())
+                {
+                    auto a = avals[nums[(std::size_t)(k % nums.size())]];
+                    d.insert(a.second, (k & 1) ? " " : "\n");
+                    d.insert(a.first, (k & 2) ? "\t" : " ");
+                }
+            }
+            break;
+        case 8:
+        {
+            std::size_t e = d.find("encoding=\"");
+            if(e != std::string::npos && e < 100)
+            {
+                std::size_t q = d.find('"', e + 10);
+                if(q != std::string::npos) d.replace(e + 10, q - e - 10, (k & 1) ? "UTF-16" : (k & 2) ? "ISO-8859-1" : "no-such-encoding");
+            }
+            break;
+        }
+        default:
+            if(!texts.empty()) d.insert(texts[(std::size_t)(k % texts.size())].first, "&nope;");
+            break;
+        }
+    }
     else if(n == "textdel" || n == "textset")
     {
         // element text nodes  >text</  : lost or replaced
@@ -3022,8 +3128,10 @@ Plan gen_c09(u64 seed, const std::string& tier)
         int n = (int)fl.range(1, 2);
         for(int i = 0; i < n; i++)
         {
-            switch(fl.below(12))
+            switch(fl.below(14))
             {
+            case 12:
+            case 13: mut("mut.xml", {(long long)fl.below(100000), (long long)fl.below(10)}); break;
             case 8:
             case 9: mut("mut.attrcopy", {(long long)fl.below(100000), (long long)fl.below(100000), (long long)fl.below(100000)}); break;
             case 10: if(fl.chance(1, 2)) mut("mut.casetoggle", {(long long)fl.below(100000)}); else mut("mut.textdel", {(long long)fl.below(100000)}); break;
